@@ -87,7 +87,7 @@
 //@subst /-> \(r: \*mut u8\)/ => -> (r: MutPtr)
 //@subst /self\.raw_mut_ptr\(\)\.add\(offset\)/ => self.mut_ptr_at(offset)
 //@subst /return self\.raw_mut_ptr\(\);/ => return self.mut_ptr_at(0);
-//@subst /rt_panic\(\)/ => rt_panic_documented()
+//@subst? /rt_panic\(\)/ => rt_panic_documented()
 //@contract
   requires self.ro,
   ensures false, // [C09]
